@@ -51,9 +51,16 @@ def closure (g : Graph α) : Nat → List α → Option (List α)
 /-- nodes reachable from `a` by zero or more edges -/
 def reachFrom (g : Graph α) (a : α) : Option (List α) := closure g ((keys g).length + 1) [a]
 
+/-- the table `a ↦ reachFrom a` for the given nodes -/
+def reachRows (g : Graph α) : List α → Option (List (α × List α))
+  | [] => some []
+  | a :: as =>
+    match reachFrom g a, reachRows g as with
+    | some r, some rs => some ((a, r) :: rs)
+    | _, _ => none
+
 /-- the table `a ↦ reachFrom a` for every key -/
-def reachTable (g : Graph α) : Option (List (α × List α)) :=
-  (keys g).mapM fun a => (reachFrom g a).map fun r => (a, r)
+def reachTable (g : Graph α) : Option (List (α × List α)) := reachRows g (keys g)
 
 def reaches (R : List (α × List α)) (a b : α) : Bool :=
   match R.find? (fun p => p.1 == a) with
